@@ -190,6 +190,8 @@ ViewsFull(e) ==
 ViewsMonitor(e) ==
     /\ (e.t \in DOMAIN memo.m => <<e.res, NormView(e.view)>> = memo.m[e.t])
     /\ (e.t \in DOMAIN memo.c => NormCust(e) = memo.c[e.t])
+    \* served from the cache or not, the custodian and the timestamp reported belong to one update
+    /\ ((e.custres = "ok" /\ e.cust.k >= 1 /\ e.cust.k <= Len(C)) => e.cust.ts = C[e.cust.k])
 
 ViewsEv ==
     /\ IsEvent("Views")
